@@ -370,6 +370,12 @@ func cmdCheck(args []string) int {
 			failures = append(failures, failure{o, kf})
 			continue
 		}
+		if o.Bounded > 0 && !ok && *tier == "thorough" && o.Res.Status != "sat" {
+			// deeper unrolling (K=4) than the depth the selection was validated at: an inconclusive solver answer is
+			// reported as undecided, only a counterexample is a violation
+			undecided = append(undecided, baseName(o.Name)+" -- bounded(K="+strconv.Itoa(o.Bounded)+") inconclusive in the thorough tier: "+o.Desc)
+			continue
+		}
 		if o.Bounded > 0 {
 			bTotal++
 			if ok {
